@@ -3,4 +3,4 @@
 cd "$(dirname "$0")" || exit 2
 export GOPROXY=off GOSUMDB=off GOTOOLCHAIN=local
 [ -x bin/gocv ] || make -s build || exit 2
-exec bin/gocv check --property "$1" --tier "${2:-quick}"
+exec bin/gocv check --property "$1" --tier "${2:-quick}" --verif "$(pwd)"
